@@ -87,7 +87,16 @@ def c03(tier, seed):
     c.rule = ("snapshot of all observables (fen, keys, three piece representations, rights, ep, clocks, repetition/draw answers, "
               "static eval, generated move set, history prefix) before do/undo of every legal move and null move, and at every "
               "level of nested random tree walks (depth<=12) and around perft(d<=3); non-trivial = distinct root positions")
+    # "a search never alters the position it was asked about": the search's own root position is snapshotted at every
+    # (re-)entry of the root node and right before the answer, for depth-, node-, time-limited and stopped searches
+    exe = ensure_monitor("asan", "search_monitor")
+    argvs = [[exe, "--prop", "C03", "--seed", str(sd), "--searches", str(60 if q else 1500), "--maxdepth", "5"] for sd in _seeds(seed + 300)]
+    for w in run_workers(argvs, 2400):
+        c.absorb(w)
     c.assumptions = API_ASSUME
+    c.require("root-entries-snapshotted", 5000)
+    c.require("stop:before-iter1", 20)
+    c.require("stop:later", 20)
     c.require("walk-pairs", 5000 if q else 300000)
     c.require("undo:castleK", 50)
     c.require("undo:ep", 50)
@@ -372,7 +381,7 @@ def c05(tier, seed):
 
 def c08(tier, seed):
     q = tier == "quick"
-    c = _search("C08", tier, seed, "asan", 150 if q else 2500, 5 if q else 6)
+    c = _search("C08", tier, seed, "asan", 120 if q else 2500, 5 if q else 6)
     if not q:
         _merge(c, _search("C08", tier, seed + 500, "rel", 10000, 7))
     c.rule = ("searches of mate-in-N skeletons (cornered king, heavy attackers), near-mates and ordinary roots, fresh and warm tables "
@@ -380,6 +389,8 @@ def c08(tier, seed):
               "is decided by the oracle's exhaustive AND/OR mate solver (engine's own unit first, then the y-moves reading, within a "
               "node budget; budget exhaustion is counted as unverified, never as a violation); non-trivial = distinct (position, go, table)")
     c.assumptions = SEARCH_ASSUME + ["mate claims longer than the solver budget allows are reported as unverified"]
+    c.require("roots:sparse-material-mate-in-one", 200)
+    c.require("roots:mate-threat-with-few-defences", 200)
     c.require("mate-in-one-roots", 100)
     c.require("mate-announcements", 150)
     c.require("mate-announcements-verified", 100)
